@@ -67,6 +67,78 @@ claim("C13", "prog_bfs",
       "create no file.",
       "hang = no result within 3 s and again within 12 s alone; in-process assembler.main stands for the command", "DESIGN.md 6 C13")
 
+claim("C06", "container_bfs",
+      "exhaustive sweeps of single-file parameters and all file lists up to length 2-3 through the real cassette writer and reader, plus "
+      "streams from an independent tape writer with every leader/gap combination fed to the real reader",
+      "Every data length (boundary set in quick, 0..65535 in thorough) x 14 content patterns incl. block-marker triples at every phase, names, "
+      "types, every address (thorough), all lists <= 3 over a 14-file alphabet: list_files(written image) must equal the input; well-formed "
+      "streams with leaders 0..999 and gaps are listed exactly.",
+      "trusts mc/ref/tape.py (strict parser + writer, validated against each other at run time)", "DESIGN.md 6 C06")
+claim("C07", "container_bfs",
+      "exhaustive sweeps of file length/kind/name/fill order through the real disk writer and reader, cross-checked by an independent Disk BASIC "
+      "reader; images from an independent writer with every chain of length <= 3 over 8 granules fed to the real reader",
+      "Every length within 10 bytes of sector and granule boundaries (0..65535 in thorough) x 4 file kinds, 72 fill orders, file lists, and 400 "
+      "arbitrary (descending, non-adjacent, track-17-crossing) chains x 6 stream-end classes: files come back exactly.",
+      "trusts mc/ref/dskfs.py (reader, writer, fsck)", "DESIGN.md 6 C07")
+claim("C08", "container_bfs",
+      "independent Disk BASIC fsck evaluated on every image produced by the write side of C07 and by fill-to-capacity histories",
+      "Chains in range, acyclic, terminated, disjoint; no orphan FAT entries; implied length = stream length; ML stream = header+data+trailer in "
+      "chain order; nothing outside allocated granules/FAT/directory differs from a blank image.",
+      "trusts mc/ref/dskfs.py fsck, written from the format description", "DESIGN.md 6 C08")
+claim("C09", "container_bfs",
+      "breadth-first enumeration of add/save/re-open histories (depth <= 3-4) on real host files through VirtualFile, against a list model and "
+      "the independent readers",
+      "All operation sequences over an 8-file colliding alphabet on cassette and disk, plus big-cassette histories crossing and landing "
+      "exactly on 161,280 bytes: after every save the image lists the model list in order, and is recognised as the kind written.",
+      "trusts the independent tape/disk readers", "DESIGN.md 6 C09")
+claim("C10", "cli_bfs",
+      "breadth-first enumeration of command-line invocation sequences on one target path (in-process assembler.main / file_util.main, plus real "
+      "subprocesses for a conformance subset) against the save-gating model",
+      "{--to_bin,--to_cas,--to_dsk} x {append,no append} x 10 pre-existing targets x 3 commands, all sequences of 2 (3 in thorough): the target "
+      "changes only when absent or (append and same kind); refusals say why; what is written is a complete image holding old + new files.",
+      "target kind decided by the independent parsers; in-process driver validated against 66 real subprocess runs", "DESIGN.md 6 C10")
+claim("C11", "cli_bfs",
+      "product enumeration of program size x origin x NAM x --name x END x 7 switch subsets through assembler.main, outputs parsed by the "
+      "independent readers",
+      "Raw file = independently assembled image; cassette/disk hold one ML file with data = image, load = origin, entry in {origin, END operand}, "
+      "name = NAM else --name (upper-cased, 8 chars); no name => no container file.",
+      "the image itself is tied to the source by C01-C05", "DESIGN.md 6 C11")
+claim("C14", "container_bfs",
+      "strict independent tape parser evaluated on every buffer produced by the write side of C06",
+      "Every block framed 55 3C type len payload cksum 55 with the right checksum and length; name-file block of 15 bytes; data blocks 1..255; "
+      "EOF block; nothing but 00/55 between blocks.",
+      "trusts mc/ref/tape.py parse()", "DESIGN.md 6 C14")
+claim("C15", "container_bfs",
+      "breadth-first enumeration of fill-to-capacity histories on real DiskFile objects and through VirtualFile append, plus synthetic "
+      "configurations (every number of free granules at 4 placements, 0..72 live directory entries) against a multiset allocator model",
+      "needed = stream//2304+1; success iff needed <= free granules and a free slot; exactly `needed` previously free granules and one slot are "
+      "consumed; failures raise and leave the host file byte-identical; a blank disk holds floor(68/k) files of k granules.",
+      "FAT/directory read by mc/ref/dskfs.py", "DESIGN.md 6 C15")
+claim("C16", "cli_bfs",
+      "product enumeration of source image x target kind x every --files subset in three spellings x conversion chains through file_util.main, "
+      "parsed by the independent readers",
+      "Target lists exactly the selected files in source order with identical fields; cas>dsk>cas and dsk>cas>dsk return the original set; "
+      "--to_bin writes the data and refuses multi-file images.",
+      "sources written by the independent writers", "DESIGN.md 6 C16")
+claim("C17", "interp_bfs",
+      "inductive-invariant check on a deep fingerprint of all module-level state plus exhaustive history differential over corpus^3 against "
+      "fresh interpreters under three hash seeds",
+      "No assembly of any corpus program (accepted or rejected at any stage) changes module-level state, so the BFS over assembly histories "
+      "closes at one state; independently every (Q1,Q2,P) triple yields for P exactly its fresh-process output; input lines are never modified.",
+      "fingerprint walker covers globals, class attributes, function defaults/closures/caches; workers are warm (extra history)", "DESIGN.md 6 C17")
+claim("C18", "prog_bfs",
+      "metamorphic exhaustive enumeration: every accepted base program of the C02 core walk x every transformation of a finite menu (10 origin "
+      "shifts, 4 label bijections, 9 format variants, every statement template appended)",
+      "Shift: only absolute own-label operands change, by exactly D; rename/whitespace/comment/case: identical output; suffix: old bytes, "
+      "addresses and symbols unchanged; transformed programs stay accepted.",
+      "instruction boundaries from listing addresses; absolute references identified by the generator", "DESIGN.md 6 C18")
+claim("C19", "prog_bfs",
+      "exhaustive enumeration of cut plans (single, double, nested to depth 3) of every base program into including/included files, assembled "
+      "in a private directory and compared with the spliced single file; error graphs",
+      "Image, listing addresses, symbol table and origin equal the spliced file for every cut; missing files and cycles are diagnosed (also "
+      "through the command line: non-zero exit, no file).",
+      "include paths relative to cwd", "DESIGN.md 6 C19")
+
 
 def build():
     checks = []
@@ -102,6 +174,12 @@ def build():
              "kind_free_text": "product enumeration of single statements through Program.process"},
             {"name": "prog_bfs", "path": "mc/checks/c02.py", "serves_properties": ["C02", "C03", "C13", "C18", "C19"],
              "kind_free_text": "breadth-first enumeration of statement sequences / program families through Program.process"},
+            {"name": "container_bfs", "path": "mc/checks/c09.py", "serves_properties": ["C06", "C07", "C08", "C09", "C14", "C15"],
+             "kind_free_text": "enumeration of container histories and single-file parameter sweeps on real CassetteFile/DiskFile/VirtualFile objects"},
+            {"name": "cli_bfs", "path": "mc/checks/c10.py", "serves_properties": ["C10", "C11", "C16"],
+             "kind_free_text": "enumeration of command-line invocation sequences in private directories (in-process main() + subprocess conformance)"},
+            {"name": "interp_bfs", "path": "mc/checks/c17.py", "serves_properties": ["C17"],
+             "kind_free_text": "assembly histories inside one interpreter; deep fingerprint of module-level state"},
         ],
         "checks": checks,
         "not_applicable": na,
